@@ -1,6 +1,7 @@
 import FH.RuleLemmas
 import FH.Trunc
 import FH.World
+import FH.DoneLemmas
 /-!
 # C11 — End of stack is told apart from truncation; null is never a frame
 (rule-level part; the walk-level truncation theorem is in `C11_truncation_prefix` below)
@@ -17,6 +18,30 @@ theorem C11_a64_never_null_frame {rule : RuleA64} {first : Bool} {regs regs' : R
     {mem : Mem} {ra : Nat} (hr : rule.WF)
     (h : execA64 rule first regs mem = .ret (.frame ra) regs') : ra ≠ 0 :=
   (execA64_frame hr h).ra_ne
+
+/-- **Ok(None) only at a root marker (x86-64).** If a rule step completes the walk, then the
+rule is the "return address undefined" rule, or the step followed a null frame pointer, or a null
+return address was read from the stack. -/
+theorem C11_x64_done_only_at_root_marker {rule : RuleX64} {first : Bool} {regs regs' : RegsX64}
+    {mem : Mem} (h : execX64 rule first regs mem = .ret .done regs') :
+    rule = .endOfStack ∨ (usesBpX64 rule first = true ∧ regs.bp = 0) ∨ ∃ a, mem a = some 0 :=
+  execX64_done h
+
+/-- **Ok(None) only at a root marker (aarch64)**: the "stack ends here" rule in a caller frame
+(return address undefined), a null saved frame pointer in the slot the rule reads, or a return
+address (in `lr` or loaded from the stack) that is null once stripped. -/
+theorem C11_a64_done_only_at_root_marker {rule : RuleA64} {first : Bool} {regs regs' : RegsA64}
+    {mem : Mem} (h : execA64 rule first regs mem = .ret .done regs') :
+    ((∃ k, rule = .offsetSpIfFirstFrameOtherwiseStackEndsHere k) ∧ first = false) ∨
+      (∃ a, fpSlotA64 rule first regs = some a ∧ mem a = some 0) ∨ NullRaA64 regs mem :=
+  execA64_done h
+
+/-- Conversely the "return address undefined" rules complete the walk. -/
+theorem C11_undefined_ra_rules_complete (regsX : RegsX64) (regsA : RegsA64) (mem : Mem) (first : Bool)
+    (k : Nat) :
+    execX64 .endOfStack first regsX mem = .ret .done regsX ∧
+      execA64 (.offsetSpIfFirstFrameOtherwiseStackEndsHere k) false regsA mem = .ret .done regsA :=
+  ⟨rfl, rfl⟩
 
 /-- If a rule-based step ends with `CouldNotReadStack a`, then `a` is an address the stack
 reader refused. -/
